@@ -183,7 +183,13 @@ def rule_phase(ctx, tu, eff, R="C01.PHASE"):
                           "the old state before any entry is updated")
             continue
         ups = upd.summaries(app, {"mesh_x"})
-        ctx.need(len(ups) == 1, R, "%s: expected one store" % app.qual)
+        ctx.need(len(ups) >= 1, R, "%s: the state update not found" % app.qual)
+        # the update pass stores each entry once: a second store (a clamp, a correction) makes the step something other than
+        # x + dt * f(x)
+        for extra_ in ups[1:]:
+            ctx.violation(R, extra_.node, app.qual, text(extra_.node)[:70], "the update pass writes the state a second time: one "
+                          "step of the engine is no longer x + dt * f(x) (an entry is clamped / corrected after the update, "
+                          "matter is created or removed)")
         u = ups[0]
         from ..poly import Rat
         from . import c02
@@ -711,7 +717,7 @@ def run(ctx):
     # system to the destination (C06.ARGS)
     from . import c06 as _c06
     borrow(ctx, "C01", _c06.rule_convert_args, py, "C06.ARGS-CONV")
-    lints.run(ctx, "C01", ctx.py, ["kinetics", "rdsystem", "librdengine", "value_processing", "rdnetwork", "rdgraphspace", "rdgridspace"])
+    lints.run(ctx, "C01", ctx.py, ["kinetics", "rdsystem", "librdengine", "value_processing", "rdnetwork", "rdgraphspace", "rdgridspace", "units"])
     ctx.assume("agreement to rounding is not decided; that the mean is harmonic is decided only relatively (all four "
                "implementations are the same symmetric rational function of the right dimension)")
     ctx.assume("RDSystem size invariant (state / chemostat map have space.size()*nspecies() entries) for the FFI extents")
